@@ -493,12 +493,16 @@ func nativeReplay(repo string, overlays map[string]string, pkg, entry, file, scr
 	if berr != "" {
 		return false, berr
 	}
-	cmd := exec.Command(bin, "-test.run", "^TestVerifReplay$", "-test.v", "-test.timeout", "300s")
+	cmd := exec.Command(bin, "-test.run", "^TestVerifReplay$", "-test.v", "-test.timeout", "120s")
 	cmd.Dir = scratch
 	cmd.Env = append(goTestEnv(), "VERIF_ENTRY="+entry, "VERIF_REPLAY_FILE="+file)
 	out, err := cmd.CombinedOutput()
 	s := string(out)
 	if err != nil && strings.Contains(s, "VERIF-REPRODUCED") {
+		return true, s
+	}
+	if err != nil && strings.Contains(s, "panic: test timed out") {
+		// the real build does not come back on this input within two minutes
 		return true, s
 	}
 	if err != nil && (strings.Contains(s, "fatal error: stack overflow") || strings.Contains(s, "goroutine stack exceeds")) {
